@@ -48,6 +48,7 @@ def jobs(tier):
         out.append({"name": "ops/cfglist2-v/%s" % leaf, "kind": "ops", "shape": "cfglist2-v", "leaf": leaf, "depth": b["depth"], "tier": tier})
     for leaf in (["int09", "str-norm", "list-int", "dict-typed", "str-regex-req", "challenge", "bool"] if tier != "thorough" else b["leaves"]):
         out.append({"name": "growth/%s" % leaf, "kind": "growth", "leaf": leaf, "tier": tier})
+    out.append({"name": "storage-hooks", "kind": "hooks", "tier": tier})
     for fmt in b["document_formats"]:
         for sh in (["nested", "cfglist"] if tier == "quick" else W.SHAPES):
             out.append({"name": "docs/%s/%s" % (fmt, sh), "kind": "docs", "fmt": fmt, "shape": sh, "tier": tier})
@@ -109,6 +110,9 @@ def run_job(job, ctx):
         elif single["kind"] == "growth":
             j = dict(single["jobparams_full"]); j["only"] = single["only"]
             _growth(j, ctx)
+        elif single["kind"] == "hooks":
+            j = dict(single["jobparams_full"]); j["only"] = single["only"]
+            _hooks(j, ctx)
         else:
             j = dict(single["jobparams_full"]); j["only"] = single["only"]
             _includes(j, ctx)
@@ -121,8 +125,86 @@ def run_job(job, ctx):
         _docs(job, ctx)
     elif job["kind"] == "growth":
         _growth(job, ctx)
+    elif job["kind"] == "hooks":
+        _hooks(job, ctx)
     else:
         _includes(job, ctx)
+
+
+def _hooks(job, ctx):
+    """fields whose documented storage hook (`__setval__`) refuses a value that passed validation - a locked constant, a
+    value guarded by another field: the assignment raises and must leave values, user-defined marks and identities alone.
+    States: fresh (default mark), assigned, reset; positions: root, sub-configuration, list item; routes: attribute, dotted
+    path, item assignment, map to the sub-configuration, constructor keyword."""
+    import cincoconfig as cc
+    only = job.get("only")
+
+    class Locked(cc.IntField):
+        def __setval__(self, cfg, value):
+            if value == 13:
+                raise ValueError("13 cannot be stored")
+            super().__setval__(cfg, value)
+
+    class LockedStr(cc.StringField):
+        def __setval__(self, cfg, value):
+            if value == "locked":
+                raise TypeError("refused by the storage hook")
+            super().__setval__(cfg, value)
+
+    def build():
+        s = cc.Schema()
+        s.n = Locked(default=1)
+        s.t = LockedStr(default="d", transform_case="lower")
+        s.w = cc.IntField(default=0)
+        s.sub.n = Locked(default=2)
+        s.sub.t = LockedStr()
+        item = cc.Schema()
+        item.n = Locked(default=3)
+        s.items = cc.ListField(item)
+        return s
+    preps = {"fresh": lambda c: None, "assigned": lambda c: (setattr(c, "n", 5), setattr(c.sub, "n", 6), setattr(c, "t", "x"), setattr(c.sub, "t", "y")),
+             "reset": lambda c: (setattr(c, "n", 5), cc.reset_value(c, "n"), setattr(c.sub, "n", 6), cc.reset_value(c.sub, "n"))}
+    attempts = {
+        "attr": lambda c: setattr(c, "n", 13), "attr-str": lambda c: setattr(c, "t", "LOCKED"), "attr-sub": lambda c: setattr(c.sub, "n", 13),
+        "path": lambda c: c.__setitem__("sub.n", 13), "path-str": lambda c: c.__setitem__("sub.t", "locked"), "item": lambda c: c.__setitem__("n", 13),
+        "map-to-sub": lambda c: setattr(c, "sub", {"t": "ok", "n": 13}), "list-item": lambda c: setattr(c.items[0], "n", 13),
+        "load_tree": lambda c: c.load_tree({"w": 4, "n": 13}),
+    }
+    for pname, prep in preps.items():
+        for aname, attempt in attempts.items():
+            ident = [pname, aname]
+            if only is not None and only != ident:
+                continue
+            cfg = build()()
+            cfg.items = [{"n": 4}, {}]
+            prep(cfg)
+            before = W.snapshot(cfg, with_ids=True)
+            ctx.transitions += 1
+            case = {"kind": "hooks", "jobparams_full": {k: v for k, v in job.items() if k not in ("single", "only")}, "only": ident, "job": job["name"]}
+            try:
+                attempt(cfg)
+                raised = None
+            except Exception as exc:  # noqa
+                raised = exc
+            ctx.case(("hooks", pname, aname), "hooks:%s" % ("rejected" if raised else "accepted"), True)
+            if raised is None:
+                ctx.violation("C06|hooks|%s|%s|accepted" % (pname, aname), "the storage hook refused the value but the operation returned normally", case)
+                continue
+            if aname == "load_tree":
+                continue            # a tree load that fails half-way is not among the listed operations
+            after = W.snapshot(cfg, with_ids=True)
+            if after != before:
+                ctx.violation("C06|hooks|%s|%s|changed" % (pname, aname),
+                              "state %s, rejected %s (%r): the configuration changed: before %s, after %s" % (pname, aname, raised, V.show(before, 200), V.show(after, 200)), case)
+    # constructor keyword: nothing is built
+    if only is None or only == ["ctor"]:
+        try:
+            build()(n=13)
+            ctx.violation("C06|hooks|ctor|accepted", "constructor keyword refused by the storage hook but construction returned", {"kind": "hooks", "jobparams_full": dict(job), "only": ["ctor"], "job": job["name"]})
+        except Exception:  # noqa
+            pass
+    ctx.states += len(preps)
+    ctx.traces += 1
 
 
 def _growth(job, ctx):
